@@ -234,6 +234,17 @@ def oracle(c, o):
         raw = c["s"].strip()
         if raw.isascii() and raw.isdigit() and len(raw) <= 15 and q != int(raw):
             return f"decimal integer {raw} gave {float(q)}"
+        if len(o) >= 5:
+            # parsed again 100 s later: a date that the stdlib parser accepts is max(0, distance from the new now)
+            d2 = o[4]
+            if isinstance(d2, list) and len(d2) == 2 and isinstance(d2[0], int) and not (raw.isascii() and raw.lstrip("+-").isdigit()):
+                want = max(Fraction(0), Fraction(d2[0], d2[1]))
+                got = o[3]
+                if not (isinstance(got, list) and len(got) == 2 and isinstance(got[0], int) and Fraction(got[0], got[1]) == want):
+                    return (f"HTTP-date {raw!r} parsed a second time, 100 s later, gave {got} instead of {float(want)} s "
+                            f"(the first parse gave {float(q)} s)")
+            elif o[3] != o[1] and not isinstance(d2, list):
+                return f"{raw[:40]!r} parsed a second time gave {o[3]}, the first time {o[1]}"
     return None
 
 
@@ -315,8 +326,11 @@ def policy_part(chk):
         h = rng.choice(headers)
         attr = rng.choice([None, None, None, 0, 0.0, 3, -2, "0", "7"]) if h is None or rng.random() < 0.2 else None
         cases.append({"header": h, "attr": attr, "fallback": rng.choice([64 * 9, 64 * 2, 32]), "jitter": rng.choice([0, 0, 32, 64, -32, -640]),
-                      "deadline": rng.choice([10**6, 64 * 60, 64 * 3]), "async": rng.random() < 0.5,
+                      "deadline": rng.choice([10**6, 64 * 60, 64 * 3]), "att_timeout": rng.choice([None, None, 64 * 2, 64 * 50]),
+                      "async": rng.random() < 0.5,
                       "entry": rng.choice(["retry", "retrypolicy", "policy"]), "r": [rng.choice([0, 1, 3]), 4]})
+        if cases[-1]["async"]:
+            cases[-1]["att_timeout"] = None      # asyncio.wait_for needs a running loop; the coroutines here are driven by hand
     res = common.run_driver("c20_policy_driver", cases, jobs=4)
     bad = None
     zero = 0
